@@ -43,8 +43,11 @@ def validate_schema_term_new(hed_entry, hed_term=None):
         hed_term = hed_entry.name
     issues_list = []
     # todo: potentially optimize this someday, as most values are the same
-    character_set = get_allowed_characters_by_name(["name"] +
-                                                   hed_entry.attributes.get("allowedCharacter", "").split(","))
+    allowed_characters = hed_entry.attributes.get("allowedCharacter", "")
+    # An allowedCharacter attribute without a value (stored as True) names no character class.
+    if not isinstance(allowed_characters, str):
+        allowed_characters = ""
+    character_set = get_allowed_characters_by_name(["name"] + allowed_characters.split(","))
     indexes = get_problem_indexes(hed_term, character_set)
     for char, index in indexes:
         issues_list += ErrorHandler.format_error(SchemaWarnings.SCHEMA_INVALID_CHARACTERS_IN_TAG,
